@@ -688,7 +688,19 @@ attr * parse_attributes(char * source) {
 
 		pos += scan_len;
 
-		if (a) {
+		// An attribute name can be used only once per element -- the first one wins
+		bool duplicate = false;
+
+		for (attr * seen = attributes; seen != NULL; seen = seen->next) {
+			if (strcmp(seen->key, key) == 0) {
+				duplicate = true;
+				break;
+			}
+		}
+
+		if (duplicate) {
+			free(key);
+		} else if (a) {
 			a->next = attr_new(key, value);
 			a = a->next;
 		} else {
